@@ -84,6 +84,22 @@ Theorem C04_rank_check_sound :
   sum_over R 0%R Rplus (zrange n) (fun i => (GbR dofsD lags k i * IZR (Rm_of tr i k'))%R) = if k =? k' then 1%R else 0%R.
 Proof. exact rank_check_sound_R. Qed.
 
+(* T13: change of units.  The elimination solve is homogeneous of degree 1 in (right-hand side, prescribed values): the
+   reduced system for (s b, s values) at s xi has s times the residual (so s xi solves it iff xi solves the unscaled one,
+   for s <> 0), and the returned vector is s times the unscaled one -- however small or large s is. *)
+Theorem C04_r1_homogeneous :
+  forall (s : R) n dofs (values : list R) A b xi,
+  (forall i, Rred n dofs (map (fun v => s * v)%R values) A (fun j => s * b j)%R (fun j => s * xi j)%R i
+             = (s * Rred n dofs values A b xi i)%R) /\
+  (forall j, x_r1 R 0%R Rplus n dofs (map (fun v => s * v)%R values) (fun k => s * xi k)%R j
+             = (s * x_r1 R 0%R Rplus n dofs values xi j)%R).
+Proof.
+  intros. split; intros.
+  - apply (reduced_residual_homogeneous R 0%R 1%R Rplus Rmult Rminus Ropp RTheory).
+  - apply (x_r1_homogeneous R 0%R 1%R Rplus Rmult Rminus Ropp RTheory).
+Qed.
+Print Assumptions C04_r1_homogeneous.
+
 Print Assumptions C04_residual_transfer.
 Print Assumptions C04_backend_tolerance.
 Print Assumptions C04_bordered_mpc_exists.
